@@ -110,6 +110,16 @@ class Explorer:
                         return results
             except Infeasible:
                 pass
+            except (NotImplementedError, TypeError, AttributeError, z3.Z3Exception):
+                self.solver.pop()
+                raise                                    # an operation symx does not model: the caller reports 'inconclusive'
+            except Exception as e:                       # noqa: the code under analysis raised on this (feasible) path: a counterexample
+                self.paths += 1
+                if self.check() == z3.sat:
+                    self.raised = "%s: %s" % (type(e).__name__, str(e)[:200])
+                    results.append(self.solver.model())
+                    self.solver.pop()
+                    return results
             self.solver.pop()
         return results
 
@@ -216,6 +226,9 @@ class SymStr:
 
     def __hash__(self):
         return 0
+
+    def __bool__(self):
+        return EX.decide(self.n > 0)                     # truthiness of a str: non-empty (decided by the solver, forks)
 
     def __add__(self, o):
         o = SymStr.lift(o)
@@ -849,7 +862,13 @@ def run_obligation(body, base, describe, replay, twin=False, timeout=120):
             res = ex.explore(body, base)
             if res:
                 cex = describe(res[0])
-                rep = replay(cex)
+                if getattr(ex, "raised", None):
+                    cex["raised_under_symx"] = ex.raised
+                try:
+                    rep = replay(cex)
+                except Exception as e:                   # the real code raises on the concrete input: reproduced
+                    rep = True
+                    cex["raised_on_real_code"] = "%s: %s" % (type(e).__name__, str(e)[:200])
                 out.update(verdict="refuted", cex=cex, cex_message=repr(cex)[:600], reproduced=bool(rep), replay={"reproduced": bool(rep)})
             else:
                 out.update(verdict="discharged")
